@@ -228,6 +228,74 @@ def run_driver(casefile, shards=8):
     return cases, mism, tags
 
 
+def coq_term(lists):
+    return '[' + '; '.join('[' + '; '.join(str(x) for x in l) + ']' for l in lists) + ']'
+
+
+def parse_ll(s):
+    if s == '':
+        return []
+    out = []
+    for part in s.split(';'):
+        if part.startswith('x'):
+            b = bytes.fromhex(part[1:])
+            out.append(list(b))
+        elif part == '':
+            out.append([])
+        else:
+            out.append([int(x) for x in part.split(',')])
+    return out
+
+
+def kernel_crosscheck(outdir, pid, limit=150):
+    """thorough tier: re-evaluate a sample of the cases with vm_compute inside Coq (cross-checks the extraction)"""
+    import random
+    rnd = random.Random(12345)
+    picked = []
+    for cf in sorted(glob.glob(os.path.join(outdir, '*.cases'))):
+        lines = [l for l in open(cf, errors='replace').read().splitlines() if l and not l.startswith('#') and len(l) < 6000]
+        rnd.shuffle(lines)
+        picked += lines[:max(10, limit // 4)]
+    picked = picked[:limit]
+    if not picked:
+        return dict(evaluated=0, mismatches=0)
+    items = []
+    for l in picked:
+        tags, a, outs = l.split('|')
+        for t, o in zip(tags.split('+'), outs.split('/')):
+            items.append('(%s, %s, %s)' % (t, coq_term(parse_ll(a)), coq_term(parse_ll(o))))
+    src = ['From Coq Require Import List NArith.', 'Import ListNotations.', 'From PSA Require Import model.Bytes model.Dispatch.', 'Open Scope N_scope.',
+           'Fixpoint l_eqb (a b : list N) : bool := match a, b with [], [] => true | x :: a0, y :: b0 => (x =? y) && l_eqb a0 b0 | _, _ => false end.',
+           'Fixpoint ll_eqb (a b : list (list N)) : bool := match a, b with [], [] => true | x :: a0, y :: b0 => l_eqb x y && ll_eqb a0 b0 | _, _ => false end.',
+           'Definition cases : list (N * list (list N) * list (list N)) := [', ';\n'.join(items), '].',
+           'Definition nbad := Eval vm_compute in length (filter (fun c => negb (ll_eqb (dispatch (fst (fst c)) (snd (fst c))) (snd c))) cases).',
+           'Print nbad.']
+    kd = os.path.join(WORK, 'kernel-%s-%d' % (pid, os.getpid()))
+    os.makedirs(kd, exist_ok=True)
+    open(os.path.join(kd, 'KCases.v'), 'w').write('\n'.join(src))
+    rc, out = run(['coqc', '-Q', COQ, 'PSA', 'KCases.v'], 1800, cwd=kd)
+    m = re.search(r'nbad\s*=\s*(\d+)', out)
+    shutil.rmtree(kd, ignore_errors=True)
+    if rc != 0 or not m:
+        return dict(evaluated=len(items), mismatches=-1, error=out[-500:])
+    return dict(evaluated=len(items), mismatches=int(m.group(1)))
+
+
+def coqchk_once(pid):
+    """thorough tier: independent re-check of the compiled property file and everything it depends on; cached by .vo hash"""
+    h = hashlib.sha256()
+    for p in sorted(glob.glob(os.path.join(COQ, '*', '*.vo'))):
+        h.update(open(p, 'rb').read())
+    key = h.hexdigest()[:16]
+    cache = os.path.join(WORK, 'coqchk-%s-%s.txt' % (pid, key))
+    if os.path.exists(cache):
+        return open(cache).read()
+    rc, out = run(['coqchk', '-silent', '-o', '-Q', COQ, 'PSA', 'PSA.Properties.%s' % pid], 5400)
+    txt = 'rc=%d\n%s' % (rc, out[-3000:])
+    open(cache, 'w').write(txt)
+    return txt
+
+
 def load_known():
     p = os.path.join(VERIF, 'known_findings.json')
     if not os.path.exists(p):
@@ -362,6 +430,14 @@ def main():
             return 2
     ev = evaluate(prop, outdir)
     harness_fail = rc != 0
+    kernel = chk = None
+    if tier == 'thorough':
+        kernel = kernel_crosscheck(outdir, pid)
+        if kernel.get('mismatches'):
+            os.makedirs(outdir, exist_ok=True)
+            ev['direct'].append(dict(tag=0, kind='extraction-vs-kernel', case='vm_compute inside Coq disagrees with the extracted OCaml model on %s sampled cases: %s' % (kernel.get('mismatches'), kernel.get('error', ''))))
+        if os.environ.get('VERIF_COQCHK', '1') != '0':
+            chk = coqchk_once(pid)
     known = load_known()
 
     violations = []     # (kind, dict)
@@ -458,7 +534,7 @@ def main():
         rule=prop.get('rule', ''), samples=samples[:10] or ['(no cases)'],
         input_distribution=hist, model_tags=ev['tags'],
         correspondence_mismatches=len(ev['corr']), monitor_failures=len(ev['monitor']) + len(ev['direct']),
-        search_cases=searched, proof_ok=proofs['ok'], race_detector=race_note,
+        search_cases=searched, proof_ok=proofs['ok'], race_detector=race_note, kernel_crosscheck=kernel, coqchk=chk,
     )
     evidence = dict(property_id=pid, tier=tier, seed=seed, level=prop.get('level', 'proof'), coverage=coverage,
                     assumptions=prop.get('assumptions', []), wall_s=round(time.time() - t0, 2), violations=nviol)
